@@ -18,6 +18,16 @@ def simp(t):
         return 'exc', NONE, ''
 
 
+def simp_obj(e):
+    st, r = irlib.guarded(expr_simp, e, 5)
+    if st != 'ok':
+        return st, NONE, ''
+    try:
+        return 'ok', EJ.to_json(r), str(r)
+    except Exception:
+        return 'exc', NONE, ''
+
+
 def main():
     sys.setrecursionlimit(3000)
     cases = json.load(open(sys.argv[1]))
@@ -26,8 +36,16 @@ def main():
         st, se, t1 = simp(c['e'])
         st2, sse, _ = simp(se) if st == 'ok' else (st, NONE, '')
         st3, sv, t3 = simp(c['v']) if c['v']['k'] != 'none' else ('ok', NONE, '')
-        ok = 'ok' if (st, st2, st3) == ('ok', 'ok', 'ok') else 'fail'
-        out.append({'st': ok, 'se': se, 'sse': sse, 'sv': sv, 'txt': [t1, t3]})
+        # the same with shared operand objects: e and its variant are built over ONE memo (common sub-trees are
+        # the same Python objects), e is simplified, then e again, then the variant
+        memo = {}
+        e_sh = EJ.from_json_shared(c['e'], memo)
+        v_sh = EJ.from_json_shared(c['v'], memo) if c['v']['k'] != 'none' else None
+        st4, she, _ = simp_obj(e_sh)
+        st5, she2, _ = simp_obj(e_sh)
+        st6, shv, _ = simp_obj(v_sh) if v_sh is not None else ('ok', NONE, '')
+        ok = 'ok' if (st, st2, st3, st4, st5, st6) == ('ok',) * 6 else 'fail'
+        out.append({'st': ok, 'se': se, 'sse': sse, 'sv': sv, 'txt': [t1, t3], 'she': she, 'she2': she2, 'shv': shv})
     json.dump(out, open(sys.argv[2], 'w'))
 
 
